@@ -14,9 +14,48 @@ fn die(msg: &str) -> ! {
     std::process::exit(2);
 }
 
-fn materialize(t: &Value) -> Vec<u8> {
+/// JSON text with padding white space and object keys in REVERSE order (same value, different text)
+fn spaced(v: &Value, out: &mut String) {
+    match v {
+        Value::Array(a) => {
+            out.push_str("[ ");
+            for (i, x) in a.iter().enumerate() {
+                if i > 0 {
+                    out.push_str(" ,\t");
+                }
+                spaced(x, out);
+            }
+            out.push_str(" ]");
+        }
+        Value::Object(o) => {
+            out.push_str("{ ");
+            for (i, (k, x)) in o.iter().rev().enumerate() {
+                if i > 0 {
+                    out.push_str(" , ");
+                }
+                out.push_str(&Value::String(k.clone()).to_string());
+                out.push_str(" : ");
+                spaced(x, out);
+            }
+            out.push_str(" }");
+        }
+        _ => out.push_str(&v.to_string()),
+    }
+}
+
+fn materialize(t: &Value, style: u64) -> Vec<u8> {
     if t["valid"].as_bool().unwrap_or(false) {
-        return aj::from_aj(&t["v"]).unwrap_or_else(|e| die(&e)).to_string().into_bytes();
+        let v = aj::from_aj(&t["v"]).unwrap_or_else(|e| die(&e));
+        return match style {
+            2 => serde_json::to_string_pretty(&v).unwrap().into_bytes(),
+            3 => {
+                let mut s = String::from("\n  ");
+                spaced(&v, &mut s);
+                s.push_str(" \n");
+                s.into_bytes()
+            }
+            _ => v.to_string().into_bytes(),
+        };
     }
     match t["cls"].as_str().unwrap_or("?") {
         "empty" => b"".to_vec(),
@@ -137,8 +176,9 @@ pub fn cmd_cli(args: &[String]) {
             continue;
         }
         let s: Value = serde_json::from_str(&line).unwrap_or_else(|e| die(&format!("{} line {}: {}", path, ln + 1, e)));
-        let rule_text = materialize(&s["rule"]);
-        let data_text = materialize(&s["data"]);
+        let style = s["style"].as_u64().unwrap_or(1);
+        let rule_text = materialize(&s["rule"], style);
+        let data_text = materialize(&s["data"], style);
         let mode = s["mode"].as_u64().unwrap_or(1);
         let (argv, stdin): (Vec<Vec<u8>>, Vec<u8>) = match mode {
             1 => (vec![rule_text.clone(), data_text.clone()], b"JUNK-ON-STDIN".to_vec()),
